@@ -10,11 +10,12 @@ From PyOrb.gen Require Import Gen_astronomy Gen_orbital Gen_sgp4 Gen_sgp4_compos
 From PyOrb.proofs Require Import P_Sgp4Init P_Sgp4Prop P_Sgp4Exits P_Sgp4SmallE P_Sgp4Lip P_Sgp4Accuracy P_AccuracyExample.
 Open Scope R_scope.
 
-(* the position is a Lipschitz function of E + omega: 310000 km/rad for 1 <= a <= 2 earth radii, eL^2 <= 4/25 *)
-Theorem C01_position_lipschitz : forall el t e, 1 <= a el t -> a el t <= 2 -> eL2 el t e <= 4 / 25 -> forall x y,
-  Rabs (Pxf el t e x - Pxf el t e y) <= 310000 * Rabs (x - y) /\
-  Rabs (Pyf el t e x - Pyf el t e y) <= 310000 * Rabs (x - y) /\
-  Rabs (Pzf el t e x - Pzf el t e y) <= 310000 * Rabs (x - y).
+(* the position is a Lipschitz function of E + omega: 570000 km/rad for 1 <= a <= 4 earth radii (the epoch value of a near-earth
+   orbit is below 1.93, so this is the whole range in which the model keeps a within a factor of two), eL^2 <= 4/25 *)
+Theorem C01_position_lipschitz : forall el t e, 1 <= a el t -> a el t <= 4 -> eL2 el t e <= 4 / 25 -> forall x y,
+  Rabs (Pxf el t e x - Pxf el t e y) <= 570000 * Rabs (x - y) /\
+  Rabs (Pyf el t e x - Pyf el t e y) <= 570000 * Rabs (x - y) /\
+  Rabs (Pzf el t e x - Pzf el t e y) <= 570000 * Rabs (x - y).
 Proof. exact position_lipschitz. Qed.
 Print Assumptions C01_position_lipschitz.
 
@@ -26,8 +27,8 @@ Theorem C01_position_is_report : forall el t e, 1 <= a el t -> eL2 el t e <= 4 /
 Proof. exact position_is_report. Qed.
 Print Assumptions C01_position_is_report.
 
-(* the velocity: Vxk / Vyk / Vzk el t e x [km/s] are (rdotk U + rfdotk V) * 106.30225 of the report, 460 (km/s)/rad *)
-Theorem C01_velocity_lipschitz : forall el t e, 1 <= a el t -> a el t <= 2 -> eL2 el t e <= 4 / 25 -> forall x y,
+(* the velocity: Vxk / Vyk / Vzk el t e x [km/s] are (rdotk U + rfdotk V) * 106.30225 of the report, 460 (km/s)/rad for every a >= 1 *)
+Theorem C01_velocity_lipschitz : forall el t e, 1 <= a el t -> eL2 el t e <= 4 / 25 -> forall x y,
   Rabs (Vxk el t e x - Vxk el t e y) <= 460 * Rabs (x - y) /\
   Rabs (Vyk el t e x - Vyk el t e y) <= 460 * Rabs (x - y) /\
   Rabs (Vzk el t e x - Vzk el t e y) <= 460 * Rabs (x - y).
@@ -44,7 +45,7 @@ Proof. exact velocity_is_report. Qed.
 Print Assumptions C01_velocity_is_report.
 
 (* THE 1 mm / 1 um/s CLAIM over the reals, e0 > 1e-4: on an answered propagation whose Newton loop has met its stopping rule
-   (every exit but the eleventh), with semi-major axis <= 2 earth radii and eL^2 <= 4/25, each coordinate of the
+   (every exit but the eleventh), with semi-major axis <= 4 earth radii and eL^2 <= 4/25, each coordinate of the
    returned position is within 1e-6 km, and each coordinate of the returned velocity within 1e-9 km/s, of the report's
    at the unique exact solution of Kepler's equation *)
 Theorem C01_position_accuracy : forall e0 i r w m n b ts j Ucap Ew radius theta eqinc ascn rdk rfdk smjaxs,
@@ -53,7 +54,7 @@ Theorem C01_position_accuracy : forall e0 i r w m n b ts j Ucap Ew radius theta 
   exit_ok e0 i r w m n b ts Ew radius theta eqinc ascn rdk rfdk smjaxs ->
   let El := E e0 i r w m n b in let T := mkT false ts in let ec := ecl e0 i r w m n b ts in
   Rabs (kepler_residual El T ec Ucap Ew) < 1 / 1000000000000 ->
-  a El T <= 2 -> eL2 El T ec <= 4 / 25 ->
+  a El T <= 4 -> eL2 El T ec <= 4 / 25 ->
   exists Es, kepler_residual El T ec Ucap Es = 0 /\
     (forall Es', kepler_residual El T ec Ucap Es' = 0 -> Es' = Es) /\
     Rabs (gen_kep2xyz_x radius theta eqinc ascn rdk rfdk - Pxf El T ec Es) <= 1 / 1000000 /\
@@ -72,7 +73,7 @@ Theorem C01_position_accuracy_small_e : forall e0 i r w m n b ts j Ucap Ew radiu
   exit_ok3 e0 i r w m n b ts Ew radius theta eqinc ascn rdk rfdk smjaxs ->
   let El := E e0 i r w m n b in let T := mkT true ts in let ec := ecl3 e0 i r w m n b ts in
   Rabs (kepler_residual El T ec Ucap Ew) < 1 / 1000000000000 ->
-  a El T <= 2 -> eL2 El T ec <= 4 / 25 ->
+  a El T <= 4 -> eL2 El T ec <= 4 / 25 ->
   exists Es, kepler_residual El T ec Ucap Es = 0 /\
     (forall Es', kepler_residual El T ec Ucap Es' = 0 -> Es' = Es) /\
     Rabs (gen_kep2xyz_x radius theta eqinc ascn rdk rfdk - Pxf El T ec Es) <= 1 / 1000000 /\
@@ -89,7 +90,7 @@ Example C01_accuracy_inhabited :
   let El := E (6703 / 10000000) (516416 / 10000) (2474627 / 10000) (1305360 / 10000) (3250288 / 10000) (1572125391 / 100000000) (- (11606 / 1000000000)) in
   let T := mkT false 0 in
   let ec := ecl (6703 / 10000000) (516416 / 10000) (2474627 / 10000) (1305360 / 10000) (3250288 / 10000) (1572125391 / 100000000) (- (11606 / 1000000000)) 0 in
-  1 <= a El T /\ a El T <= 2 /\ eL2 El T ec <= 4 / 25.
+  1 <= a El T /\ a El T <= 4 /\ eL2 El T ec <= 4 / 25.
 Proof.
   cbv zeta. unfold ecl.
   change (E (6703 / 10000000) (516416 / 10000) (2474627 / 10000) (1305360 / 10000) (3250288 / 10000) (1572125391 / 100000000) (- (11606 / 1000000000))) with ISS.
